@@ -133,6 +133,11 @@ func runC05(e *core.Env) {
 		case 0:
 			if m, ok := gen.Mutate(r, d); ok && ref.Recognise(m.Text).Verdict == ref.NonConforming {
 				text, special = m.Text, "unparseable-target"
+				if r.Chance(1, 5) {
+					// ... together with arguments for which a command might be tempted to do nothing at all
+					cmd = MCmd{Kind: "track", Entry: []string{r.Pick(" ", "\t", "  ")}}
+					c05AimDate(r, &cmd, d.Doc)
+				}
 			}
 		case 1:
 			exists, special = false, "missing-file"
